@@ -138,8 +138,19 @@ def c01Violation (i : Impl) : Option String :=
   else if i.writes != 0 || !i.bytes.isEmpty then some "bytes-written-on-error"
   else none
 
+/-- The input AS THE EXPORTER RECEIVES IT when the importer has a template of its own: the importer's declared
+    columns first, in declaration order (null when the line lacks them), then the line's other members in order
+    of first appearance.  With the same names on both sides (the configuration the property speaks of) this changes
+    nothing for `expectedKeys`: declared names are filtered out of the undeclared tail. -/
+def asImported (tiCols : List LineSpec.Col) (inMs : JVMembers) : JVMembers :=
+  let declared := LineSpec.dedup (tiCols.map LineSpec.Col.name)
+  let first := declared.map fun n => (n, (LineSpec.lookupJV inMs n).getD .null)
+  let rest := inMs.toList.filter fun kv => !declared.contains kv.1
+  JVMembers.ofList (first ++ rest)
+
 /-- C03 / C04 on an emitted line, given the rendering template's columns and the input. -/
-def lineSpecViolation (prop : String) (cols : List LineSpec.Col) (input : Bytes) (i : Impl) : Option String :=
+def lineSpecViolation (prop : String) (cols : List LineSpec.Col) (input : Bytes) (i : Impl)
+    (tiCols : List LineSpec.Col := []) : Option String :=
   if i.panic then some "panic"
   else if !i.ok then none
   else
@@ -150,10 +161,11 @@ def lineSpecViolation (prop : String) (cols : List LineSpec.Col) (input : Bytes)
       if !okOut then some "invalid-json-object"
       else if !okIn && prop == "C03" then some "accepted-invalid-input"   -- C04 judges the output alone
       else
-        let v := if prop == "C03" then LineSpec.orderViolation 8 cols (LineSpec.normDup inMs) outMs false
+        let rowIn := asImported tiCols (LineSpec.normDup inMs)
+        let v := if prop == "C03" then LineSpec.orderViolation 8 cols rowIn outMs false
                  else LineSpec.classViolation 8 cols outMs
         match v with
-        | none => if prop == "C03" then LineSpec.missingColumnViolation cols (LineSpec.normDup inMs) outMs else none
+        | none => if prop == "C03" then LineSpec.missingColumnViolation cols rowIn outMs else none
         | some (clause, inSub) => some (if inSub then "subrow-flatten:" ++ clause else clause)
     | _ => some "no-trailing-newline"
 
@@ -244,7 +256,8 @@ def c11LineViolation (cols : List LineSpec.Col) (input : Bytes) (i : Impl) : Opt
           | _ => none
     | _ => some "no-trailing-newline"
 
-def oracle (prop : String) (cols : Option (List LineSpec.Col)) (input : Bytes) (i : Impl) : Option String :=
+def oracle (prop : String) (cols : Option (List LineSpec.Col)) (input : Bytes) (i : Impl)
+    (tiCols : List LineSpec.Col := []) : Option String :=
   if prop == "C11" then
     match cols with
     | some cols => c11LineViolation cols input i
@@ -253,14 +266,14 @@ def oracle (prop : String) (cols : Option (List LineSpec.Col)) (input : Bytes) (
   if prop == "C01" then c01Violation i
   else if prop == "C03" || prop == "C04" then
     match cols with
-    | some cols => lineSpecViolation prop cols input i
+    | some cols => lineSpecViolation prop cols input i tiCols
     | none => none
   else if prop == "C14" then c14LineViolation input i
   else if prop == "C16" then c01Violation i   -- a rejected line yields no output at all; an accepted one exactly one line
   else if i.panic then some "panic" else none
 
 def judge (prop : String) (what : String) (m : Outcome (Bytes × Option ErrClass)) (implS : String)
-    (cols : Option (List LineSpec.Col) := none) (input : Bytes := []) : Result :=
+    (cols : Option (List LineSpec.Col) := none) (input : Bytes := []) (tiCols : List LineSpec.Col := []) : Result :=
   match parseImpl implS with
   | none => ⟨"B", s!"cannot parse impl observation: {implS}"⟩
   | some i =>
@@ -269,7 +282,7 @@ def judge (prop : String) (what : String) (m : Outcome (Bytes × Option ErrClass
     let abstain := ms == "err EXT"
     -- the command route (jl binary) reports a rejected line without its error class: `err any`
     let d := if i.cls == "any" && !i.ok && !i.panic then !(ms.startsWith "err ") else ms != is
-    let p := oracle prop cols input i
+    let p := oracle prop cols input i tiCols
     match d, p with
     | false, none => ⟨"S", ""⟩
     | true, none =>
@@ -283,6 +296,7 @@ def runLine (prop tiS toS lineS extS implS : String) : Result :=
   match tmplOf env tiS, tmplOf env toS, unhexTok lineS with
   | some ti, some to, some line =>
     judge prop s!"line ti=[{tiS}] to=[{toS}] in={lineS}" (jlLine env ti to line) implS (colsOf toS) line
+      (if prop == "C03" then (colsOf tiS).getD [] else [])
   | _, _, _ => ⟨"B", "cannot parse templates or line"⟩
 
 /-- `shortw`: a row exported to a writer that takes only part of the line. Oracle (C01: "reaches the writer as one
